@@ -21,6 +21,8 @@ def decorate(rng, rec, stratum):
                 pass
             i = v.rfind("/")
             v = v[:i + 1] + "d" + sp + "r/" + v[i + 1:]
+            rec = dict(rec)
+            rec["marker"] = "d" + sp + "r/"
         elif k == "comm" and rng.random() < 0.5 and stratum in ("special", "quote"):
             v = v + rng.choice([" prog", "=x", "#1", "é"] if stratum == "special" else ['"q'])
         elif k == "info" and rng.random() < 0.5:
@@ -121,13 +123,16 @@ def run(ctx):
                 line = logsgen.render(r["fields"])
                 if len(cand) != 1:
                     # not found by its identifying value: the identifying value itself was altered, or the record was dropped
-                    near = [m for m in out if m.get("operation") == want.get("operation") and any(str(r["tag"]) in str(v) for v in m.values())]
+                    near = [m for m in out if m.get("operation") == want.get("operation") and any(logsgen.tagstr(r["tag"]) in str(v) for v in m.values())]
                     if near:
                         m = near[0]
                     else:
                         if cls:
                             viol("C15/quote-in-decoded-value", "record with a '\"' in a hex-encoded value is not reported intact: %s" % line[:300], {"line": line})
-                        continue      # dropped records are C14's business
+                        else:
+                            # these inputs hold no duplicate and no noise path: every well-formed record must come back with its values
+                            viol("C15/record-not-reported-intact/%s" % st, "no reported event carries the identifying value %r of: %s" % (ident(r), line[:400]), {"line": line})
+                        continue
                 else:
                     m = cand[0]
                 ctx.extra["records_matched"] = ctx.extra.get("records_matched", 0) + 1
@@ -139,6 +144,8 @@ def run(ctx):
                         bad.append("%s lost (was %r)" % (k, v))
                     elif m[k] != v and k not in GENERALISED:
                         bad.append("%s=%r reported as %r" % (k, v, m[k]))
+                if r.get("marker") and r["marker"] not in m.get("name", "") and not cls:
+                    bad.append("name: the component %r of %r is not in the reported %r" % (r["marker"], want.get("name"), m.get("name")))
                 for k in m:
                     if k not in want:
                         bad.append("foreign key %s=%r" % (k, m[k]))
@@ -152,6 +159,4 @@ def run(ctx):
     for key, lst in sorted(agg.items()):
         ctx.violation(key, "%s  [%d case(s)]" % (lst[0][0][:700], len(lst)), lst[0][1])
     ctx.extra["records"] = len(recs)
-    if ctx.extra.get("records_matched", 0) < 0.8 * len(recs):
-        from .common import HarnessError
-        raise HarnessError("C15: only %d of %d records were found in the output of logs.New" % (ctx.extra.get("records_matched", 0), len(recs)))
+
